@@ -191,6 +191,71 @@ def reach_cache_key(k: int) -> int:
     return cache_combo_check(k)
 
 
+# ----------------------------------------------------------------- public entry with the real memos (O14.1c)
+# ob_cache_key reasons about the keys of each memoised function; this obligation looks at the public entry point with
+# the real (C-level) lru caches in place: encoding b after a value a that is EQUAL to it (==), in any type combination,
+# gives the bytes a process that never saw a would give.  Values are a finite list; the real lru needs concrete values.
+HVALS = [0.0, -0.0, 0, 1, 1.0, True, False, -1, -1.0, 2, 2.0, '0', '-0.0', '0.0', '1', '1.0', float('inf'), -float('inf'),
+         255, 255.0, 128, 128.0]
+HPAIRS = [(i, j) for i in range(len(HVALS)) for j in range(len(HVALS)) if i != j and HVALS[i] == HVALS[j]]
+N_HPAIRS = len(HPAIRS)
+HCODES = CODES + [RepC.FSINGL, RepC.UNORM, RepC.SNORM]
+N_HCODES = len(HCODES)
+
+
+def _real_memos(on):
+    for (mn, gn, lru) in MEMOISED:
+        m = sys.modules[mn]
+        if on:
+            setattr(m, gn, lru)
+        else:
+            setattr(m, gn, _guard(mn, gn, lru))
+
+
+def _clear_real():
+    for (_mn, _gn, lru) in MEMOISED:
+        lru.cache_clear()
+
+
+def entry_history_check(ci, k):
+    (i, j) = HPAIRS[k]
+    code = HCODES[ci]
+    a, b = HVALS[i], HVALS[j]
+    with untraced():
+        _real_memos(True)
+        try:
+            def run(v):
+                try:
+                    return ('ok', lits(sw.write_struct(code, v)))
+                except Exception as e:
+                    return ('exc', type(e).__name__)
+            _clear_real()
+            run(a)
+            after = run(b)
+            _clear_real()
+            fresh = run(b)
+            _clear_real()
+        finally:
+            _real_memos(False)
+    return 0 if after == fresh else 1
+
+
+def ob_entry_history(ci: int, k: int) -> int:
+    """
+    pre: 0 <= ci < N_HCODES and 0 <= k < N_HPAIRS
+    post: _ == 0
+    """
+    return entry_history_check(ci, k)
+
+
+def reach_entry_history(ci: int, k: int) -> int:
+    """
+    pre: 0 <= ci < N_HCODES and 0 <= k < N_HPAIRS
+    post: _ != 0
+    """
+    return entry_history_check(ci, k)
+
+
 # -------------------------------------------------------------------------------- encode-step idempotence (O14.9)
 
 def idempotent_check(si, mult, x, s, arm):
